@@ -291,6 +291,12 @@ func (h *Harness) StartHandshake(n *Node, label string, chains [][]*x509.Certifi
 	raw := make([][]byte, 0)
 	hs.Call, hs.CallT, hs.NetAt = h.S.steps, h.S.Now(), h.Net.HitCount()
 	hs.Task = h.S.Go(n.Name, n.Name+"/hs:"+label, func() {
+		defer func() {
+			if !hs.Done {
+				// the call panicked (the panic itself is reported by Wait): it is not an acceptance
+				hs.Err = errors.New("panic in VerifyClientCertificate")
+			}
+		}()
 		err := n.V.VerifyClientCertificate(raw, chains)
 		hs.Err = err
 		hs.Ret, hs.RetT, hs.NetTo = h.S.steps, h.S.Now(), h.Net.HitCount()
